@@ -41,6 +41,13 @@ def fuzz_decoders(ctx, n):
             else:
                 m = bytes([rnd.choice([0, 0xff, 2, 3, 4, 5])]) * len(v)
             ctx.call("dec", ty, m)
+    # every prefix of every valid encoding (a bound computed from the wrong group's length shows only in a narrow window)
+    for ty in tys:
+        v = enc_[ty]
+        for l in range(len(v)):
+            r = ctx.call("dec", ty, v[:l], impl_only=True)
+            if r is not None:
+                ctx.expect(r.status == "ERR", "%s: a %d-byte prefix of a valid encoding is refused with an error (%s)" % (ty, l, r.status))
     # the bare key decoders take a slice of ANY length: alternative encodings of valid points, wrong lengths
     for label, m in alternative_point_encodings(L.ke, rnd):
         r = ctx.call("ke_pk", m)
@@ -114,9 +121,34 @@ def lengths(ctx, which, n):
         ctx.expect(f.ok, "%s of %d bytes is accepted (%s at %s)" % (which, n, f.error, f.failed_at))
 
 
+def huge(ctx, which, n):
+    """lengths whose low 16 bits are small but which need more than 3 bytes (2^24 + k): refused at the first step that
+    frames the value, by the code alone (the extracted model is not asked to hash 16 MiB)"""
+    ctx.nontrivial = True
+    L = ctx.L
+    f = honest_flow(ctx, b"pw", b"u", None, None, None)
+    big = bytes(n)
+    ctx.counting = True
+    if which == "context":
+        r = ctx.call("srv_login_start", ctx.tape(64 + L.Nsk + 16), f.setup, f.file, f.ke1, b"u", big, None, None, impl_only=True)
+        q = ctx.call("login_finish", f.client_login, b"pw", f.ke2, big, None, None, "~", impl_only=True)
+    else:
+        idu, ids = (big, None) if which == "idu" else (None, big)
+        r = ctx.call("srv_login_start", ctx.tape(64 + L.Nsk + 16), f.setup, f.file, f.ke1, b"u", None, idu, ids, impl_only=True)
+        q = ctx.call("login_finish", f.client_login, b"pw", f.ke2, None, idu, ids, "~", impl_only=True)
+    for who, x in (("server", r), ("client", q)):
+        if x is not None:
+            ctx.expect(x.status == "ERR", "%s of %d bytes is refused by the %s with an error value (%s)" % (which, n, who, x.status))
+
+
 def cases(tier, seed):
     out = []
     ss = suites_for(tier, seed)
+    # suites whose OPRF elements and key-exchange keys differ in length, both ways
+    ss = list(dict.fromkeys(ss + ["R255/P521", "P521/R255", "P256/P384"]))
+    for j, which in enumerate(("context", "idu", "ids")):
+        out.append(dict(script=huge, suite=ss[j % len(ss)], seed=seed * 1000 + 900 + j, mode="pattern",
+                        params=dict(which=which, n=(1 << 24) + (5, 0, 300)[j])))
     for i, s in enumerate(ss):
         out.append(dict(script=fuzz_decoders, suite=s, seed=seed * 1000 + i, mode="pattern", params=dict(n=(60 if tier == "quick" else 600))))
         out.append(dict(script=cross_feed, suite=s, seed=seed * 1000 + 100 + i, mode="pattern", params=dict(other_suite=ss[(i + 1) % len(ss)])))
